@@ -104,4 +104,7 @@ package decoder
 //@   ensures [short] !old(fits(d, 2)) ==> result == "" && d.offset == old(d.offset) && d.lasterror != nil
 //@   ensures [neglen] old(fits(d, 2)) && int16(old(be16(d.data, d.offset))) < 0 ==> result == "" && d.offset == old(d.offset)+2 && d.lasterror != nil
 //@   ensures [fits] old(fits(d, 2)) && int16(old(be16(d.data, d.offset))) >= 0 && int(int16(old(be16(d.data, d.offset)))) <= len(d.data)-old(d.offset)-2 ==> len(result) == int(int16(old(be16(d.data, d.offset)))) && d.offset == old(d.offset)+2+len(result) && same(result, old(d.data)[old(d.offset)+2:old(d.offset)+2+len(result)])
+//@   ensures [toolong] old(fits(d, 2)) && int16(old(be16(d.data, d.offset))) >= 0 && int(int16(old(be16(d.data, d.offset)))) > len(d.data)-old(d.offset)-2 ==> result == "" && d.offset == old(d.offset)+2 && d.lasterror != nil
+//@   ensures [sticky] old(d.lasterror) != nil ==> d.lasterror != nil
+//@   ensures [forward] d.offset >= old(d.offset)
 //@   modifies d.offset, d.lasterror
